@@ -33,7 +33,7 @@ MANIFEST = {
     "note": TRUST + " Transactions emulated like baseapp (ValidateBasic, cache context + recover). Tolerance between epochs is counted per "
             "converted lock (delegate / undelegate / top-up since the last exact refresh, +1 for the rounded base): counting only the locks "
             "currently connected is false for the code's own per-lock rounding (the bounded model exhibits it; measured on every run as "
-            "strict_per_current_lock_exceeded). Validators other than the block signer are jailed without slash and released (a step that changes nothing in the specification). Validator slashing (exchange rate != 1), governance removal of superfluid assets, "
+            "strict_per_current_lock_exceeded). Validators other than the block signer are jailed without slash and released (a step that changes nothing in the specification); the first owner of every history is on the lockup force-unlock list and sends MsgForceUnlock in every superfluid state. Validator slashing (exchange rate != 1), governance removal of superfluid assets, "
             "unpool / migration / UnbondConvertAndStake are outside the driver's alphabet. "
             "No spec->impl replay leg (multipliers cannot be set to model values through a public entry point).",
 }
@@ -80,7 +80,7 @@ NEED = ("lock", "add", "sfdelegate", "sfundelegate", "sfunbond", "sfundelunbond"
         "topup:delegated", "clcreate", "cladd", "cladd:refused", "begin", "begin:split", "endblock", "swap", "block", "epoch", "fund", "history:cl",
         "sfdelegate:refused", "sfundelegate:refused", "sfunbond:refused", "begin:refused:delegated", "begin:refused:undelegating",
         "unlock:refused:undelegating", "extend:refused:held",
-        "history:crash-script", "refresh:locks-worth-zero", "refresh:restaked-from-zero", "jail", "topup:delegated-to-jailed")
+        "history:crash-script", "refresh:locks-worth-zero", "refresh:restaked-from-zero", "jail", "topup:delegated-to-jailed", "force", "force:refused:undelegating", "force:refused:delegated")
 
 
 def big(b):
